@@ -71,9 +71,17 @@ def check_case(spec, inst, mo, rnd, res=None):
         fac = LanguageClassesFactory(lg)
         try:
             m, _ = build_model(fac, inst)
-            AttackGraph(lg, m); AttackGraph(lg, m)
+            AttackGraph(lg, m); g = AttackGraph(lg, m)
         except Exception as e:
+            g = None
             if res: res.notes.append('graph generation failed in C03 case: ' + type(e).__name__)
+        if g is not None:
+            # what the attack graph exposes for an asset is the same fold (a resolver of its own, or a cache keyed by
+            # something several specifications share - generated languages all carry one id and version - shows here)
+            for a in m.assets:
+                got = {n.name: n.attributes for n in g.nodes if n.asset is a}
+                if all(isinstance(v, dict) for v in got.values()) and canon_steps(got) != want[str(a.type)]:
+                    probs.append(f'attack steps of {a.type} exposed by the attack graph differ from the root-down fold'); break
         ask_all('after regenerating the language graph and building two attack graphs')
         if not probs: exposed('after regenerating the language graph')
         if not probs and lg._lang_spec != snapshot: probs.append('language specification modified by graph generation')
